@@ -6,6 +6,7 @@ import (
 	"net"
 	"net/http"
 	"net/url"
+	"time"
 
 	"google.golang.org/grpc/codes"
 	"google.golang.org/grpc/credentials/insecure"
@@ -827,4 +828,27 @@ func vfFingerprint(s *state) string {
 	}
 	fp += "|conns=" + string(rune('0'+len(s.conns)))
 	return fp
+}
+
+// (from h_proxy.go)
+// vfWatchdog runs f; natively a hang (no return within the limit) is reported the way the engine
+// reports it: as a deadlock.
+func vfWatchdog(f func()) {
+	if vfSymbolic() {
+		f()
+		return
+	}
+	done := make(chan interface{}, 1)
+	go func() {
+		defer func() { done <- recover() }()
+		f()
+	}()
+	select {
+	case r := <-done:
+		if r != nil {
+			panic(r)
+		}
+	case <-time.After(8 * time.Second):
+		panic(vfCheckFailed{"deadlock: the call did not complete"})
+	}
 }
